@@ -116,6 +116,24 @@ CLAIMED.update({
               "from the read version is wrong for every rebased commit); the per-row sequences and delta queries are not decided.",
               "build_version_meta is trusted to stamp every physical row; carry-over through compaction is value-level.",
               "DESIGN.md 3 C17"),
+    "C13": _c("other", "mode-constant-propagating must-pass / ordering analysis of the compaction task and its commit",
+              "Only the carry-over wiring of compaction: the rewrite scan is restricted to the task's fragments, ordered and free of "
+              "row/column-changing options; with address ids the scan captures row ids and fragment ids are reserved before the "
+              "old->new map is built; with stable ids no successful result skips rechunk_stable_row_ids and "
+              "recalc_versions_for_rewritten_fragments (uses_stable_row_ids() propagated as a constant through every test of it, "
+              "including the Some/None tuple it selects); the sequences are re-ordered, masked by deletions, rechunked exactly and "
+              "stored; commit_compaction publishes one Rewrite whose groups, remapped indices and reuse index come from the tasks. "
+              "A necessary condition; row multisets, map values and index answers are not decided.",
+              "write_fragments_internal, transpose_row_addrs, rechunk_* and the remapper are trusted to compute the right values.",
+              "DESIGN.md 3 C13"),
+    "C43": _c("other", "attribute-coverage (COVER) analysis of every Field-from-Field construction and of the stored / Arrow conversions",
+              "Only the attribute-carrying clause: every place that builds a Field from a Field (projection, exclusion, intersection, "
+              "merge: discovered) takes each of name, id, parent_id, logical_type, metadata, encoding, nullable, dictionary, "
+              "unenforced_primary_key from the same attribute of a source field; Field <-> pb::Field carries each attribute in its "
+              "same-named stored field, children are flattened and re-attached by parent_id, the inline Encoding tables are inverse; "
+              "Field <-> ArrowField and Schema <-> ArrowSchema carry name, type, nullability, metadata, fields. The set algebra "
+              "(which fields are kept) and path resolution are not decided.",
+              "Field::clone (derived) and data_type()/LogicalType round trip are trusted.", "DESIGN.md 3 C43"),
     "C42": _c("other", "descriptor-shape inventory + over-approximating origin analysis of persisted references",
               "Only the clause 'every persisted reference is root-relative': descriptors that point at other objects carry no "
               "location-typed or location-named field beyond the reviewed relative ones; the data-file path stored by every writer "
@@ -192,7 +210,6 @@ CLAIMED.update({
 NOT_APPLICABLE = {
     "C11": "round-trip equality of Arrow data through writer, file splitting and scanner is a fact about run-time values; no structural clause is a necessary condition beyond C01/C05",
     "C12": "three-valued logic, join results and duplicate detection are value-level; the only shape clause (row-level conflict) is decided under C04",
-    "C13": "multiset equality, row-id and version carry-over and index answers depend on row values and remap arithmetic; commit-side shape clauses are covered under C03/C24",
     "C14": "column values, join fill and field-id assignment are value-level; no shape rule is a useful necessary condition",
     "C15": "offset-to-address arithmetic over arbitrary deletion vectors is value-level",
     "C16": "needs an evaluator oracle over data; plan-shape invariants are not necessary conditions of result equality",
@@ -207,7 +224,6 @@ NOT_APPLICABLE = {
     "C35": "floating-point kernel results",
     "C40": "array values",
     "C41": "stream contents and schedules",
-    "C43": "set algebra over run-time schemas",
 }
 
 # properties whose checks are designed (DESIGN.md) but not registered yet
